@@ -207,6 +207,7 @@ func oracleC03(p *plan.Plan, his []plan.Rec, res *plan.Result) {
 		vals     map[string]bool
 		ack      string
 		ever        map[string]bool // every value ever written to the key
+		overlapDel  bool // the last acknowledged Delete ran while two or more membership changes were pending
 		slowDelete  bool // the last acknowledged Delete was blocked for longer than the member-to-member read time-out
 		baseBackups int  // backup copies before the first membership event
 		rewritten   bool // written again during the hand-over phase
@@ -282,6 +283,7 @@ func oracleC03(p *plan.Plan, his []plan.Rec, res *plan.Result) {
 					rt = 3000
 				}
 				st.slowDelete = r.Op.K == "del" && r.TRet-r.TInv >= rt*1e6
+				st.overlapDel = r.Op.K == "del" && pendingEvents >= 2
 			} else {
 				st.vals[v], st.vals["?"+v] = true, true
 				res.Counters["oracle.indeterminate_writes"]++
@@ -322,7 +324,7 @@ func oracleC03(p *plan.Plan, his []plan.Rec, res *plan.Result) {
 						// an older version came back after a Delete
 						class = "deleted-key-resurrected"
 					}
-					viol(res, class, r.Op.Key+slowTag(st.slowDelete), "%s but the key may only hold %v; writes: %s", descRecT(r), keysOf(st.vals), writesOf(his, r.Op.Key))
+					viol(res, class, r.Op.Key+slowTag(st.slowDelete)+overlapTag(st.overlapDel && class == "deleted-key-resurrected"), "%s but the key may only hold %v; writes: %s", descRecT(r), keysOf(st.vals), writesOf(his, r.Op.Key))
 				}
 			case r.Err == plan.ENotFound:
 				if !st.vals[""] {
@@ -373,7 +375,7 @@ func oracleC03(p *plan.Plan, his []plan.Rec, res *plan.Result) {
 					} else if (st.ack == "" && len(keysOf(st.vals)) == 1) || (st.slowDelete && st.vals[""] && st.ever[v]) {
 						class = "deleted-key-resurrected"
 					}
-					viol(res, class, r.Op.Key+slowTag(st.slowDelete), "Get(%s) through m%d returned %q, allowed %v; writes: %s", r.Op.Key, c.Member, v, keysOf(st.vals), writesOf(his, r.Op.Key))
+					viol(res, class, r.Op.Key+slowTag(st.slowDelete)+overlapTag(st.overlapDel && class == "deleted-key-resurrected"), "Get(%s) through m%d returned %q, allowed %v; writes: %s", r.Op.Key, c.Member, v, keysOf(st.vals), writesOf(his, r.Op.Key))
 				}
 			}
 			if len(seen) > 1 {
@@ -432,6 +434,13 @@ func oracleC03(p *plan.Plan, his []plan.Rec, res *plan.Result) {
 			}
 		}
 	}
+}
+
+func overlapTag(b bool) string {
+	if b {
+		return " overlapping-membership-changes"
+	}
+	return ""
 }
 
 func slowTag(slow bool) string {
